@@ -22,7 +22,9 @@ from .rendering import BACKENDS, Rendered, render
 quiet_naunet()
 
 THEOREMS = {
-    "C01": (["NaunetProps.C01"], ["Naunet.C01.rhs_eq_massAction", "Naunet.C01.rhs_eq_massAction_nomod",
+    "C01": (["NaunetProps.C01", "NaunetProps.Physics"], ["Naunet.Physics.numDens_ignores_tail", "Naunet.Physics.mu_ignores_tail",
+                                  "Naunet.Physics.mu_mul_numDens",
+                                  "Naunet.C01.rhs_eq_massAction", "Naunet.C01.rhs_eq_massAction_nomod",
                                   "Naunet.C01.rhs_isolated", "Naunet.C01.vars_are_reactants",
                                   "Naunet.C01.thermal_eq", "Naunet.C01.thermal_wrapper",
                                   "Naunet.evalEqn_rhsFrom"]),
@@ -35,7 +37,9 @@ THEOREMS = {
                                   "Naunet.C03.csr_triples_iff", "Naunet.C03.csrRows_csrOf",
                                   "Naunet.C03.decodeFlat_encode", "Naunet.C03.pattern_iff",
                                   "Naunet.C03.neqns_pos", "Naunet.C03.subscripts_in_bounds"]),
-    "C04": (["NaunetProps.C04"], ["Naunet.C04.conservation", "Naunet.C04.weighted_massAction",
+    "C04": (["NaunetProps.C04", "NaunetProps.Physics"], ["Naunet.Physics.elementAbund_ignores_tail", "Naunet.Physics.elementAbund_add",
+                                  "Naunet.Physics.elementAbund_smul",
+                                  "Naunet.C04.conservation", "Naunet.C04.weighted_massAction",
                                   "Naunet.sum_weight_count"]),
     "C13": (["NaunetProps.C13"], ["Naunet.C13.override_exact", "Naunet.C13.override_untouched",
                                   "Naunet.C13.odeMod_only_target", "Naunet.C13.odeMod_value",
@@ -528,7 +532,7 @@ def run(pid: str, argv):
     all_b = list(BACKENDS)
     requests, pending = [], []
     ov_requests, ov_pending = [], []
-    compiled_jobs = []
+    compiled_jobs, physics_jobs = [], []
     for n in range(ncases):
         case = gen_case(chk.rng, tier, pid, n)
         ok_cool = allowed_cooling(case)
@@ -554,6 +558,20 @@ def run(pid: str, argv):
         except Exception as e:
             chk.corr_break("stage-input", case_summary(case), None, f"{type(e).__name__}: {e}")
             req = None
+        if pid == "C01" and (case["cooling"] or case.get("heating")) and len(physics_jobs) < {"quick": 3, "thorough": 20}[tier]:
+            for b, rd in list(rds.items())[:1]:
+                if b == "cusparse":
+                    continue
+                masses = [0.0] * rd.nspec
+                comps = [[0] * rd.nelem for _ in range(rd.nspec)]
+                for sp in net.species:
+                    nm = "IDX_" + sp.alias
+                    if nm in rd.idx and rd.idx[nm] < rd.nspec:
+                        masses[rd.idx[nm]] = float(sp.massnumber)
+                        for en, ei in rd.elem_idx.items():
+                            if ei < rd.nelem:
+                                comps[rd.idx[nm]][ei] = int(sp.element_count.get(en[len("IDX_ELEM_"):], 0))
+                physics_jobs.append((case, b, rd, masses, comps))
         if pid == "C03" and case["reacs"] and len(compiled_jobs) < {"quick": 4, "thorough": 24}[tier]:
             compiled_jobs += [(case, b, rds[b].path) for b in ("dense", "sparse") if b in rds]
         for b, rd in rds.items():
@@ -567,6 +585,8 @@ def run(pid: str, argv):
         if req is not None:
             requests.append(req)
             pending.append((case, rds))
+        if pid == "C13" and case["reacs"] and (n % 3 == 2 or n < 4):
+            reassigned_modifiers_check(chk, case, net, n)
         if pid == "C13" and case.get("_ref"):
             for b, rd in rds.items():
                 ref = case["_ref"].get(b)
@@ -582,8 +602,12 @@ def run(pid: str, argv):
                                     "idxs": [r.idxfromfile for r in net.reactions],
                                     "stmts": [[c, r] for _, r, c in base]})
                 ov_pending.append((case, b, got))
+    if pid == "C04":
+        slot_identity_check(chk)
     if compiled_jobs:
         compiled_matrix_check(chk, compiled_jobs)
+    if physics_jobs:
+        compiled_physics_check(chk, physics_jobs)
     # ---- model correspondence
     if getattr(chk, "lean_ok", False) and requests:
         try:
@@ -847,6 +871,177 @@ def oracle_c02(chk, case, net, rd, rds):
                               f"Jacobian entry ({i},{j}) [{inv.get(i)}, {inv.get(j)}] is not d(ydot)/dy", input=summ,
                               expected=want.canon(), observed=got.canon() if (i, j) in ep else "omitted", point=pt)
                 return
+
+
+def reassigned_modifiers_check(chk, case, net, n):
+    """The modifiers are attributes of the network object: assigning a new table replaces the old one.  The network that has just
+    been rendered gets another rate-modifier table (other reactions, one of them the neutral statement `0.0`) and another ODE
+    modifier, and is rendered again; a network built from scratch with these tables must give the same rate statements and the
+    same right-hand side."""
+    idxs = sorted({r.idx for r in case["reacs"] if r.idx != -1}) if case["indexed"] else list(range(len(case["reacs"])))
+    if not idxs:
+        return
+    old = set(case["ratemod"])
+    fresh_keys = [i for i in idxs if i not in old] or idxs
+    second = {fresh_keys[0]: "4.0e-11"}
+    if len(fresh_keys) > 1:
+        second[fresh_keys[-1]] = "0.0"
+    used = [s for s in case["species"] if any(s in r.re + r.pr for r in case["reacs"])]
+    mods2 = [(used[0], [("-3.0e-3", [used[0]])])] if used else []
+    case2 = dict(case, ratemod=second, mods=mods2)
+    scratch = chk.scratch / f"case{n}-reassigned"
+    keep = (dict(net.rate_modifier), dict(net.ode_modifier))
+    try:
+        with silenced():
+            net.rate_modifier = dict(second)
+            net.ode_modifier = {t.name: {"factors": [f for f, _ in terms], "reactants": [[d.name for d in ds] for _, ds in terms]}
+                                for t, terms in mods2}
+            render(net, "dense", scratch / "live")
+            net2 = build_network(case2, scratch / "files")
+            render(net2, "dense", scratch / "fresh")
+    except Exception as e:
+        chk.hist["reassign-refused:" + type(e).__name__] += 1
+        return
+    finally:
+        net._rate_modifier, net._ode_modifier = keep      # (the caller still reads the first tables off this object)
+    chk.hist["modifiers-reassigned"] += 1
+    chk.count(("reassigned", n), nontrivial=True)
+    a, b = Rendered(scratch / "live", "dense"), Rendered(scratch / "fresh", "dense")
+    ws = lambda x: None if x is None else "".join(x.split())
+    try:
+        ra, rb = [(i, ws(r), ws(c)) for i, r, c in a.rates("k")], [(i, ws(r), ws(c)) for i, r, c in b.rates("k")]
+        fa, fb = {k: poly_of_text(v) for k, v in a.fex().items()}, {k: poly_of_text(v) for k, v in b.fex().items()}
+    except cparse.CParseError:
+        return
+    if ra != rb or fa != fb:
+        d = next((x for x in ra if x not in rb), None) or next((x for x in rb if x not in ra), None)
+        chk.violation({"kind": "reassigned-modifier-differs", "what": "rates" if ra != rb else "rhs"},
+                      "a network whose modifier tables were assigned a second time renders differently from a network built with "
+                      "the second tables: the first tables are still (partly) in force", input=case_summary(case),
+                      first_rate_modifier={str(k): v for k, v in case["ratemod"].items()}, second_rate_modifier={str(k): v for k, v in second.items()},
+                      differing_statement=d)
+
+
+def slot_identity_check(chk):
+    """Every species owns one ODE slot, named by its alias (`IDX_<alias>`): element and charge sums are taken slot by slot, so two
+    different species with one alias would share a slot and the second `ydot[...] =` statement would overwrite the first.  The
+    aliases of a list of species that differ in a label, a marker or an excitation star only must be pairwise different (whether
+    the alias is a legal identifier is C09's question, finding F9)."""
+    from naunet.species import Species
+    reset_species_state()
+    names = ["H2", "H2*", "oH2", "pH2", "H2+", "H2-", "#H2", "C3H2", "c-C3H2", "l-C3H2", "C3H", "l-C3H", "c-C3H", "CH", "CH*", "CH+",
+             "HC3N", "HC3N*", "O", "O*", "O-", "#O", "He", "He+", "He++", "#CO", "CO", "CO*", "C2H", "l-C2H", "GRAIN0", "GRAIN-", "e-"]
+    with silenced():
+        sp = [Species(n) for n in names]
+    seen = {}
+    for n, s in zip(names, sp):
+        chk.count(("alias", n), nontrivial=True)
+        other = seen.get(s.alias)
+        if other is not None and not (other[1] == s):
+            chk.violation({"kind": "shared-slot", "names": sorted([other[0], n])},
+                          f"species `{other[0]}` and `{n}` are different species but both get the index macro IDX_{s.alias}: they share one "
+                          f"slot of y[] / ydot[], so neither the element sums nor the charge sum can be conserved",
+                          input={"names": [other[0], n], "alias": s.alias})
+            return
+        seen.setdefault(s.alias, (n, s))
+
+
+def compiled_physics_check(chk, jobs):
+    """The temperature equation divides by `npar`, the particle density the rendered helper GetNumDens() computes, and uses
+    GetMu() / GetGamma() when the user gives none: what those helpers compute is part of the right-hand side.  The rendered
+    naunet_physics.cpp is compiled and the helpers are evaluated on vectors with a conspicuous temperature slot:
+    GetNumDens = sum of the species' abundances (the temperature is not a particle), GetMu = sum(A_i y_i) / sum(y_i) with
+    naunet's own mass numbers, GetHNuclei / GetElementAbund = count-weighted sums over the ground-truth compositions."""
+    import subprocess
+    from concurrent.futures import ThreadPoolExecutor
+    from . import cbuild
+    from .common import ROOT
+
+    def one(job):
+        case, b, rd, masses, comps = job
+        path = Path(rd.path)
+        files = [path / "src" / f for f in ("naunet_physics.cpp", "naunet_constants.cpp", "naunet_utilities.cpp")]
+        exe = path / "c01_physics"
+        ok, err = cbuild.build(path, ROOT / "shim" / "c01_physics_driver.cpp", exe, b, files=[f for f in files if f.exists()])
+        if not ok:
+            return job, "build", err, None
+        vecs = []
+        for k in range(3):
+            v = [round(0.5 + 0.37 * ((7 * i + 3 * k) % 11), 3) for i in range(rd.neqns)]
+            if rd.thermal:
+                v[rd.nspec] = 1.0e4 * (k + 1)          # the gas temperature: three to four orders above any abundance
+            vecs.append(v)
+        r = subprocess.run([str(exe)], input="".join(" ".join(repr(x) for x in v) + "\n" for v in vecs), capture_output=True,
+                           text=True, timeout=300)
+        if r.returncode != 0 or len(r.stdout.strip().split("\n")) != len(vecs):
+            return job, "run", f"rc={r.returncode} {r.stderr[-400:]}", None
+        return job, None, r.stdout.strip().split("\n"), vecs
+
+    model_reqs, model_pend = [], []
+    with ThreadPoolExecutor(8) as ex:
+        for (case, b, rd, masses, comps), stage, out, vecs in ex.map(one, jobs):
+            chk.hist["compiled-physics"] += 1
+            summ = case_summary(case)
+            if stage is None and comps is not None and all(m == int(m) for m in masses):
+                for v, line in zip(vecs, out):
+                    fr = [Fraction(repr(x)) for x in v]
+                    model_reqs.append({"cmd": "physics", "nelem": rd.nelem, "y": [[f.numerator, f.denominator] for f in fr],
+                                       "species": [{"mass": int(m), "counts": c} for m, c in zip(masses, comps)]})
+                    model_pend.append((summ, v, line))
+            if stage == "build":
+                chk.corr_break("compiled-physics", summ, None, f"does not compile: {out[-600:]}")
+                continue
+            if stage == "run":
+                chk.corr_break("compiled-physics", summ, None, out)
+                continue
+            close = lambda a, w: abs(a - w) <= 1e-12 * max(abs(a), abs(w), 1e-300)
+            for v, line in zip(vecs, out):
+                head, _, tail = line.partition("|")
+                numdens, mu, gamma, hnuc = (float(x) for x in head.split())
+                ys = v[:rd.nspec]
+                want_n = sum(ys)
+                want_mu = sum(m * y for m, y in zip(masses, ys)) / want_n if want_n else None
+                bad = None
+                if not close(numdens, want_n):
+                    bad = ("GetNumDens", numdens, want_n)
+                elif want_mu is not None and not close(mu, want_mu):
+                    bad = ("GetMu", mu, want_mu)
+                elif not close(gamma, 5.0 / 3.0):
+                    bad = ("GetGamma", gamma, 5.0 / 3.0)
+                if bad:
+                    model_reqs, model_pend = [r for r, p in zip(model_reqs, model_pend) if p[0] is not summ], [p for p in model_pend if p[0] is not summ]
+                    chk.violation({"kind": "physics-helper", "helper": bad[0], "backend": b},
+                                  f"compiled {bad[0]}(y) returns {bad[1]!r}; over the {rd.nspec} species of the network it should be "
+                                  f"{bad[2]!r} (the temperature equation is emitted as …/(kerg*npar) with npar = GetNumDens(y))",
+                                  input=summ, vector=v)
+                    break
+    physics_model_correspondence(chk, model_reqs, model_pend)
+
+
+def physics_model_correspondence(chk, reqs, pend):
+    """the Lean model of the helpers (`Physics.numDens`, `mu`, `elementAbund`, exact rationals) against the compiled ones"""
+    if not (getattr(chk, "lean_ok", False) and reqs):
+        return
+    try:
+        answers = lean_driver(reqs)
+    except Exception as e:
+        chk.corr_break("driver", None, None, str(e)[:300])
+        return
+    close = lambda a, w: abs(a - w) <= 1e-12 * max(abs(a), abs(w), 1e-300)
+    for (summ, v, line), ans in zip(pend, answers):
+        if "error" in ans:
+            chk.corr_break("physics-model", summ, ans, line)
+            continue
+        head, _, tail = line.partition("|")
+        numdens, mu, gamma, hnuc = (float(x) for x in head.split())
+        elems = [float(x) for x in tail.split()]
+        fr = lambda q: q[0] / q[1]
+        ok = close(numdens, fr(ans["numdens"])) and (ans["mu"] is None or close(mu, fr(ans["mu"]))) \
+            and len(elems) == len(ans["elem"]) and all(close(a, fr(q)) for a, q in zip(elems, ans["elem"]))
+        if ok:
+            chk.traces += 1
+        else:
+            chk.corr_break("physics-model", summ, ans, line)
 
 
 def compiled_matrix_check(chk, jobs):
